@@ -128,8 +128,9 @@ ParseAbs(s) == LET d == ParseDR(s)
 TopLevel(keys) == {FirstSegment(k) : k \in keys}
 
 (* FlowIR.application_dependency_to_name: drop the leading path and the trailing extension            *)
-DepName(d) == LET base == IF d[1] = "/" THEN After(d, LastPos(d, "/")) ELSE d
-              IN IF Has(base, ".") THEN Before(base, LastPos(base, ".")) ELSE base
+DepName(dd) == LET d == IF dd[Len(dd)] = "/" THEN Before(dd, Len(dd)) ELSE dd      \* a trailing "/" does not count
+                   base == IF d[1] = "/" THEN After(d, LastPos(d, "/")) ELSE d
+               IN IF Has(base, ".") THEN Before(base, LastPos(base, ".")) ELSE base
 DepNames(deps) == {DepName(d) : d \in deps}
 
 FoldersOf(keys, deps) == ReservedSeqs \cup TopLevel(keys) \cup DepNames(deps)
@@ -336,24 +337,38 @@ NamesFull == {
    <<"stage1x", ".", "foo">>, <<"stage1x">>, <<"stage1">>,      \* look-alikes of a stage prefix
    <<"xstage1", ".", "foo">>, <<"stage", ".", "foo">>, <<"x", ".", "stage1", ".", "y">>,
    <<"data", ".", "x">>, <<"datax">>, <<"name0">>,              \* look-alikes of folders
-   <<"c">>, <<"name">>, <<"pkg">>, <<"n", ".", "m">> }          \* called like folders of some contexts
+   <<"c">>, <<"name">>, <<"pkg">>, <<"n", ".", "m">>, <<"lib">> }   \* called like folders of some contexts
 FilesFull == { <<>>, <<"f", ".", "txt">>, <<"*", ".", "txt">>, <<"d", "/", "f", ".", "txt">>, <<"d", "/", "*">>,
                <<"out">>, <<"data", "/", "x">>, <<"stage1", ".", "x">> }
 FilesSmall == { <<>>, <<"f", ".", "txt">>, <<"d", "/", "f", ".", "txt">>, <<"d", "/", "*">>, <<"stage1", ".", "x">> }
 MethodsAll == {"copy", "link", "ref", "copyout", "extract", "output", "loopref", "loopoutput"}
-MethodsSmall == {"ref", "copy", "output", "loopoutput"}
+MethodsSmall == {"ref", "copy", "output"}
 MethodsTwo == {"ref", "copyout"}
 MethodsOne == {"ref"}
 FilesTwo == { <<>>, <<"d", "/", "f", ".", "txt">> }
 
-KeySets == << {}, {<<"a">>}, {<<"a", "/", "d">>}, {<<"a", "/", "d">>, <<"c">>, <<"data", "/", "x">>} >>
-DepSets == << {}, {<<"name", ".", "ext">>}, {<<"/", "abs", "/", "name", ".", "ext">>, <<"pkg">>, <<"n", ".", "m", ".", "ext">>} >>
+(* manifest keys of depth 1, 2 and 3; a deeper key whose top-level folder is / is not declared by a shallower key;  *)
+(* keys with a trailing separator; keys whose top-level folder looks like a reserved folder or like a component     *)
+(* name of the alphabet (datax, a0, name0 -- in those contexts no component has that name)                           *)
+KeySets == << {},
+              {<<"a">>},
+              {<<"a", "/", "d">>},
+              {<<"a", "/", "d">>, <<"c">>, <<"data", "/", "x">>},
+              {<<"a", "/", "d", "/", "e">>},
+              {<<"c">>, <<"c", "/", "d", "/", "e">>, <<"a", "/", "d", "/", "e">>, <<"a", "/", "x">>},
+              {<<"a", "/">>, <<"c", "/", "d", "/">>},
+              {<<"datax", "/", "y", "/", "z">>, <<"a0", "/", "x">>, <<"name0", "/", "x", "/", "y">>} >>
+(* application dependencies: "name", "name.ext", "/abs/name.ext", deeper absolute paths, a trailing separator *)
+DepSets == << {}, {<<"name", ".", "ext">>},
+              {<<"/", "abs", "/", "name", ".", "ext">>, <<"pkg">>, <<"n", ".", "m", ".", "ext">>,
+               <<"/", "abs", "/", "deep", "/", "er", "/", "lib", ".", "ext", "/">>} >>
 MkCtx(kn, keys, deps) ==
    [mode |-> kn, keys |-> keys, deps |-> deps, folders |-> FoldersOf(keys, deps)]
-ContextsFull == [i \in 1..36 |-> MkCtx(<<"all", "none", "stage0">>[((i - 1) % 3) + 1],
-                                       KeySets[(((i - 1) \div 3) % 4) + 1], DepSets[((i - 1) \div 12) + 1])]
+ContextsFull == [i \in 1..72 |-> MkCtx(<<"all", "none", "stage0">>[((i - 1) % 3) + 1],
+                                       KeySets[(((i - 1) \div 3) % 8) + 1], DepSets[((i - 1) \div 24) + 1])]
 ContextsQuick == << MkCtx("all", KeySets[1], DepSets[1]), MkCtx("stage0", KeySets[2], DepSets[2]),
                     MkCtx("all", KeySets[3], DepSets[3]), MkCtx("none", KeySets[4], DepSets[3]),
-                    MkCtx("not0", KeySets[4], DepSets[2]), MkCtx("all", KeySets[4], DepSets[1]) >>
+                    MkCtx("all", KeySets[5], DepSets[1]), MkCtx("not0", KeySets[6], DepSets[2]),
+                    MkCtx("stage0", KeySets[7], DepSets[1]), MkCtx("all", KeySets[8], DepSets[3]) >>
 ContextsOne == << MkCtx("stage0", KeySets[4], DepSets[3]) >>
 =============================================================================
